@@ -256,7 +256,7 @@ class GP(Optimizer):
         mutated_tree = copy.deepcopy(tree)
 
         # Calculating mutation point
-        mutation_point = int(r.generate_uniform_random_number(2, max_nodes))
+        mutation_point = int(r.generate_uniform_random_number(2, max_nodes)[0])
 
         # Finds the node at desired mutation point
         sub_tree, flag = mutated_tree.find_node(mutation_point)
@@ -355,7 +355,7 @@ class GP(Optimizer):
         father_offspring = copy.deepcopy(father)
 
         # Calculating father's crossover point
-        father_point = int(r.generate_uniform_random_number(2, max_father))
+        father_point = int(r.generate_uniform_random_number(2, max_father)[0])
 
         # Finds the node at desired crossover point
         sub_father, flag_father = father_offspring.find_node(father_point)
@@ -364,7 +364,7 @@ class GP(Optimizer):
         mother_offspring = copy.deepcopy(mother)
 
         # Calculating mother's crossover point
-        mother_point = int(r.generate_uniform_random_number(2, max_mother))
+        mother_point = int(r.generate_uniform_random_number(2, max_mother)[0])
 
         # Finds the node at desired crossover point
         sub_mother, flag_mother = mother_offspring.find_node(mother_point)
